@@ -100,6 +100,16 @@ def felixPrograms (T : FelixTable) (v : Str) (ipip vxlan : Mode) : Bool :=
 calc.EncapsulationCalculator from the pools present, and the unrelated switches of the route
 resolver gate.  `FelixGuards` are the guard conditions regenerated from the source. -/
 
+/-- Felix's own pool classification (calc.EncapsulationCalculator.handleModelPool): a mode is "on"
+iff it is not `encap.Never` — ANY other string counts, unlike confd's `modeOn`. -/
+def modeOnFelix (m : Mode) : Bool := m != .never
+
+/-- `felixPrograms` with Felix's own classification of the pool. -/
+def felixProgramsOwnClass (T : FelixTable) (v : Str) (ipip vxlan : Mode) : Bool :=
+  if modeOnFelix vxlan then true
+  else if modeOnFelix ipip then felixIPIP T v
+  else felixNoEncap T v
+
 structure FelixEnv where
   progIPIP : Bool
   progNoEncap : Bool
